@@ -742,3 +742,43 @@ _carboxylic_rename("on_o1.both_listed", "c_od1", ["HD11", "HD12"], ["c_od1", "c_
 _carboxylic_rename("on_o2.both_listed", "c_od2", ["HD21", "HD22"], ["c_od1", "c_od2"])
 _carboxylic_rename("on_o1.one_listed", "c_od1", ["HD11", "HD12"], ["c_od1"])
 _carboxylic_rename("on_o2.one_listed", "c_od2", ["HD21", "HD22"], ["c_od2"])
+
+
+# ---------------------------------------------------------------- Flip.complete: the end of a flip's life (C03, C04, C14)
+# Whatever happened before - no partner found (five atoms still there), the original kept, the flipped alternative kept -
+# after complete() the residue holds exactly CB, OD1, ND2 under their plain names (no *FLIP placeholder, map and names in
+# agreement), they are ONE alternative as a whole (both at the input positions or both at the half-turn images), nothing has
+# moved, and the cell list holds exactly the survivors.
+def names_agree(res):
+    ok = True
+    for k, a in res.map.items():
+        ok = ok and a.name == k and exists(res.atoms, lambda b: b is a)
+    return ok and len(res.map) == len(res.atoms)
+
+
+def _flip_states():
+    def atoms(names):
+        al = {"CB": ("cb", "CB"), "OD1": ("od", "OD1"), "ND2": ("nd", "ND2"), "OD1FLIP": ("odf", "OD1FLIP"), "ND2FLIP": ("ndf", "ND2FLIP")}
+        return [(k, HATOM(*al[k])) for k in names]
+    full = atoms(["CB", "OD1", "ND2", "OD1FLIP", "ND2FLIP"])
+    yield "no_partner", 0, full, "od.reg is None and nd.reg is None and res.map['OD1'] is odf and res.map['ND2'] is ndf"
+    yield "original_kept", 1, atoms(["CB", "OD1", "ND2"]), "res.map['OD1'] is od and res.map['ND2'] is nd"
+    yield "flip_kept", 1, atoms(["CB", "OD1FLIP", "ND2FLIP"]), "res.map['OD1'] is odf and res.map['ND2'] is ndf"
+
+
+for _tag, _fixed, _atoms, _who in _flip_states():
+    contract(
+        "pdb2pqr.hydrogens.structures:Flip.complete", ["C03", "C04", "C14"],
+        params={"self": Obj("pdb2pqr.hydrogens.structures:Flip", routines=ROUTINES(),
+                            residue=Named("res", Obj("pdb2pqr.aa:ASN", fixed=Const(_fixed), wasFlipped=Bool,
+                                                     atoms=Items(*[Ref(a[1].name) for a in _atoms]), map=DictOf(*_atoms))))},
+        requires=[],
+        ensures=[
+            "len(res.atoms) == 3 and 'CB' in res.map and 'OD1' in res.map and 'ND2' in res.map",
+            "not exists(res.atoms, lambda a: a.name.endswith('FLIP')) and names_agree(res)",
+            _who,
+            "forall(res.atoms, lambda a: registered(a) and a.x == old(a.x) and a.y == old(a.y) and a.z == old(a.z))",
+        ],
+        stubs=CELL_STUBS,
+        name=f"Flip.complete.{_tag}", native=False,
+    )
